@@ -127,6 +127,12 @@ func tagValueP(tag int) any {
 	case tag > 0 && tag%11 == 5:
 		var p *int
 		return &p
+	case tag > 0 && tag%5 == 4:
+		// look-alikes: distinct instances with equal content (identity must still be what moves)
+		x := 7
+		return &x
+	case tag > 0 && tag%13 == 6:
+		return &PubStruct{A: 1, B: "same"}
 	}
 	return tagValue(tag)
 }
